@@ -52,7 +52,11 @@ def draw_rotation(rng, wild=True):
     if not wild:
         al = (rng.choice(PLANE_AZIMUTHS) if rng.random() < 0.3
               else rfloat(rng, 0, 2 * math.pi, 4))
-        return [0, rfloat(rng, 0, math.pi, 4), al]
+        # axis exactly along / against / across the beam: the solver's
+        # angular functions take a separate branch at the poles
+        be = (rng.choice([0.0, math.pi, math.pi / 2]) if rng.random() < 0.2
+              else rfloat(rng, 0, math.pi, 4))
+        return [0, be, al]
     return [draw_angle(rng, 2 * math.pi), draw_angle(rng, math.pi),
             draw_angle(rng, 2 * math.pi)]
 
@@ -372,8 +376,17 @@ class C10:
             tol = TOL_SPHERE if rel in ('sphere_limit', 'sphere_limit_lens',
                                         'equal_axes') \
                 else TOL_REL.get(rel, TOL_SYM)
+            if rel == 'reverse' and _broadside(ev):
+                # at beta = pi/2 exactly the solver moves the axis by its
+                # 1e-7 rad regularisation to the *same* side for both
+                # orientations, so they are not exact reversals of each
+                # other: agreement to the size of that step only
+                tol = 1e-4
+                rel_key = 'reverse_broadside'
+            else:
+                rel_key = rel
             mx = ex.stats.setdefault('maxerr', {})
-            mx[rel] = max(mx.get(rel, 0.0), err)
+            mx[rel_key] = max(mx.get(rel_key, 0.0), err)
             if err > tol:
                 ex.add(violation(
                     'C10.' + ('sphere-limit' if tol == TOL_SPHERE
@@ -382,6 +395,14 @@ class C10:
                     'tolerance %.1g: %s' % (rel, err, tol, _describe(ev)),
                     sig='C10.%s:%s' % ('sphere-limit' if tol == TOL_SPHERE
                                        else 'symmetry', rel)))
+
+
+def _broadside(ev):
+    try:
+        return any(abs(c['sc']['args']['rotation'][1] - math.pi / 2) < 1e-6
+                   for c in ev['args']['calcs'])
+    except (KeyError, TypeError, IndexError):
+        return False
 
 
 def _undict(p):
